@@ -413,6 +413,25 @@ func drawTokens(rt *rapid.T, n int) []srcTok {
 			} else {
 				st = regexpTok(rapid.SampledFrom([]string{"a", "(?i)b c", "x/y", `\d+`, "(?m)^q"}).Draw(rt, "re"))
 			}
+		case 2:
+			// names and numbers of any length: every character counts
+			switch gen.Uniform(rt, "longk", 3) {
+			case 0:
+				n := rapid.SampledFrom([]int{1, 2, 31, 32, 33, 63, 64, 65, 66, 127, 128, 129, 255, 256, 257, 1000, 5000}).Draw(rt, "identlen")
+				name := strings.Repeat("long_name_", n/10+1)[:n-1] + rapid.SampledFrom([]string{"a", "b", "Z", "_", "7"}).Draw(rt, "identtail")
+				if name[0] == '7' {
+					name = "q" + name[1:]
+				}
+				st = srcTok{name, tok{"IDENT", name}}
+			case 1:
+				n := rapid.SampledFrom([]int{1, 5, 40, 64, 65, 200}).Draw(rt, "uidentlen")
+				name := strings.Repeat("狐é", n) + rapid.SampledFrom([]string{"犬", "x", "1"}).Draw(rt, "uidenttail")
+				st = srcTok{name, tok{"IDENT", name}}
+			default:
+				n := rapid.SampledFrom([]int{18, 19, 20, 64, 65, 300}).Draw(rt, "zeros")
+				num := strings.Repeat("0", n) + rapid.SampledFrom([]string{"7", "12", "0"}).Draw(rt, "numtail")
+				st = srcTok{num, tok{"INT", num}}
+			}
 		default:
 			st = fixedToks[gen.Uniform(rt, "fixed", len(fixedToks))]
 		}
